@@ -28,8 +28,9 @@ def one(sid):
 
 
 def main():
-    ids = sys.argv[1:] or sorted(os.listdir(os.path.join(ROOT, "seeded")))
-    out = {}
+    ids = sys.argv[1:] or sorted(x for x in os.listdir(os.path.join(ROOT, "seeded")) if os.path.isdir(os.path.join(ROOT, "seeded", x)))
+    mpath = os.path.join(ROOT, "seeded", "MATRIX.json")
+    out = json.load(open(mpath)) if os.path.exists(mpath) and sys.argv[1:] else {}
     with cf.ThreadPoolExecutor(3) as ex:
         for sid, res in ex.map(one, ids):
             out[sid] = res
